@@ -87,9 +87,10 @@ CLAIMS = {
         "programs per run (one planted violation at every position, two-violation programs, token corruptions, well-formed controls) under all four macros and "
         "ascent_source!; Lean theorems: for each violation class IllFormed_K -> rejected for a violation at any position, WellFormedCore <-> check = ok, the model's "
         "stratification test is equivalent to the declarative condition (two rules on a dependency cycle lie in one SCC), every macro reaching itself from an invocation "
-        "is rejected for any budget, leftover-panic sites unreachable and the code-generation panics characterised exactly. The thorough tier compiles ~285 programs "
+        "is rejected for any budget, an aggregation over a missing bound argument / a struct-impl signature mismatch / an empty disjunction at any depth is rejected, and no stage panics. The thorough tier compiles ~285 programs "
         "with rustc (the diagnostic must point into the program). Every full-strength statement that is false of the real code has a decide-d witness and a known "
-        "finding (FM2-FM6, FM8, FM10, FM11: accepted ill-formed programs, macro panics, eager exponential expansion, spurious rejections); FM1, FM7, FM9, FM12 were repaired by fix commits and their witnesses must pass.",
+        "finding (FM2, FM8, FM10: an accepted shadowing aggregation argument, eager exponential expansion, spurious rejections); FM1, FM3-FM7, FM9, FM11, FM12 were repaired by fix "
+        "commits, their witnesses must pass, and the model's pipeline provably never panics (check_never_panics).",
    design_ref="DESIGN.md §8 C15",
    note="Lean kernel; axioms propext/Classical.choice/Quot.sound; trusted: the text->summary printer of the generator, syn, rustc diagnostics, in-process spans "
         "(span-dependent cases go to rustc in the thorough tier); FM3 (token level) and FM11 (span-dependent hygiene) are not modelled."),
